@@ -13,7 +13,6 @@ from .c02_sym import (
     ANode,
     App,
     BoundBuiltin,
-    Cat,
     ClassVal,
     Closure,
     Effect,
@@ -21,7 +20,6 @@ from .c02_sym import (
     ExtObj,
     ExtRef,
     ExtView,
-    Frame,
     FuncVal,
     Inst,
     Partial,
@@ -220,14 +218,20 @@ class Interp(_Interp):
             raise Unsupported("dataclasses.field outside a class body", node, fi)
         if dotted == "operator.itemgetter" or dotted == "operator.attrgetter":
             raise Unsupported(dotted, node, fi)
-        if dotted in ("copy.copy", "copy.deepcopy") and args and is_native(args[0]):
-            import copy
+        if dotted in ("copy.copy", "copy.deepcopy") and args:
+            if is_native(args[0]):
+                import copy
 
-            return copy.deepcopy(args[0])
+                return copy.deepcopy(args[0])
+            if dotted == "copy.copy" and isinstance(args[0], (list, dict, set)):
+                return type(args[0])(args[0])
+            if isinstance(args[0], (Term, tuple)):
+                return args[0]
+            raise Unsupported(f"{dotted} of a {type(args[0]).__name__} value", node, fi)
         if dotted.startswith("warnings.") or dotted.startswith("logging."):
             return None
-        if any(isinstance(a, ExtObj) for a in args):
-            raise Unsupported(f"library call {dotted} on an abstract object", node, fi)
+        if any(isinstance(a, (ExtObj, ExtView, list, dict, set, Inst, ANode, Seq, FuncVal, Closure, Partial)) for a in [*args, *kwargs.values()]):
+            raise Unsupported(f"library call {dotted} on values the executor tracks (no model of its effect)", node, fi)
         return App(f"ext:{dotted}", tuple(_h(a) for a in args) + tuple((k, _h(v)) for k, v in sorted(kwargs.items())))
 
     def call_builtin(self, name: str, args: list, kwargs: dict, node, frame) -> Any:
@@ -248,7 +252,11 @@ class Interp(_Interp):
                     return self.call_function(m, [v], {})
             if isinstance(v, ExtObj):
                 return App(f"extlen@{v.version}", (v.name,))
-            raise Raised(None, "TypeError")
+            if isinstance(v, ExtView):
+                return App(f"extlen@{v.obj.version}", (v.obj.name, v.kind, _h(v.key)))
+            if isinstance(v, (int, float, bool, type(None))):
+                raise Raised(None, "TypeError")
+            raise Unsupported(f"len() of a {type(v).__name__} value", node, fi)
         if name == "isinstance":
             return self.isinstance_(args[0], args[1], node, frame)
         if name == "issubclass":
